@@ -3322,7 +3322,24 @@ impl<Front: SocketHandler> ConnectionH2<Front> {
                 "IoSlice refs must be cleared before consume"
             );
             debug.push(DebugEvent::SocketIO(debug_site, global_stream_id, size));
+            let head_before_consume = kawa.storage.head;
             kawa.consume(size);
+            // `Kawa::consume` may shift the storage buffer to the left and only
+            // re-bases the stores queued in `kawa.out`. The H2 converter can
+            // leave unconverted blocks behind (a flow-control stall pushes the
+            // DATA chunk back onto `kawa.blocks`), and their slices must be
+            // re-based by the same amount: otherwise the bytes emitted once the
+            // window reopens come from the wrong offset (silent body corruption)
+            // or a later `push_left` underflows and `Store::data` panics.
+            // `Buffer::shift` is the only operation in `consume` that moves
+            // `head`, so the difference is the shift amount.
+            let shifted = head_before_consume.saturating_sub(kawa.storage.head);
+            if shifted > 0 {
+                let shifted = u32::try_from(shifted).unwrap_or(u32::MAX);
+                for block in kawa.blocks.iter_mut() {
+                    block.push_left(shifted);
+                }
+            }
             position.count_bytes_out_counter(size);
             position.count_bytes_out(metrics, size);
             if let Some(counter) = bytes_written.as_deref_mut() {
